@@ -66,14 +66,24 @@ where StandardUniform: Distribution<F>, OpenClosed01: Distribution<F>, Open01: D
         if F::NAME == "f32" {
             // exact: every value of the 24 bits an f32 uniform draw uses (the low bits vary but are not looked at)
             let mut cnt = vec![0u64; xs.len()]; let mut nan = 0u64; let mut multi = 0u64;
+            let (mut pinf, mut ninf) = (0u64, 0u64); let (mut vmin, mut vmax): (Option<F>, Option<F>) = (None, None); let mut first_bad: Option<String> = None;
             for pat in 0..(1u64 << 24) {
                 let w = (pat << 40) | (pat.wrapping_mul(0x9E37_79B9_7F4A_7C15) >> 24);
                 let (v, nw) = one.call(&s, w);
                 if nw != 1 { multi += 1; }
-                if v.is_nan() { nan += 1; continue; }
+                if v.is_nan() { nan += 1; if first_bad.is_none() { first_bad = Some(format!("{:#018x} -> NaN", w)); } continue; }
+                if v == F::infinity() { pinf += 1; if first_bad.is_none() { first_bad = Some(format!("{:#018x} -> +inf", w)); } }
+                else if v == F::neg_infinity() { ninf += 1; if first_bad.is_none() { first_bad = Some(format!("{:#018x} -> -inf", w)); } }
+                else { vmin = Some(vmin.map_or(v, |m| m.min(v))); vmax = Some(vmax.map_or(v, |m| m.max(v))); }
                 for (k, &x) in xs.iter().enumerate() { if v <= x { cnt[k] += 1; } }
             }
             calls += 1 << 24;
+            // every reachable output: class counts and extremes (the support rule is TLC's)
+            { let mut ev = base.clone(); ev["op"] = json!("sup"); ev["res"] = json!("Ok"); ev["nan"] = json!(nan); ev["pinf"] = json!(pinf); ev["ninf"] = json!(ninf);
+              ev["hasfin"] = json!(vmin.is_some()); ev["min"] = json!(vmin.map(olimbs).unwrap_or(vec![0, 0, 0])); ev["max"] = json!(vmax.map(olimbs).unwrap_or(vec![0, 0, 0]));
+              ev["po"] = json!(params.iter().map(|&p| olimbs(p)).collect::<Vec<_>>()); ev["first_bad"] = json!(first_bad.unwrap_or_default());
+              ev["show"] = json!([vmin.map(|v| format!("{:e}", v)).unwrap_or_default(), vmax.map(|v| format!("{:e}", v)).unwrap_or_default()]);
+              evs.push(ev.to_string()); }
             for k in 0..xs.len() {
                 let mut ev = base.clone(); ev["op"] = json!("q"); ev["anchor"] = json!(k + 1); ev["x"] = json!(xs_s[k]); ev["xo"] = json!(olimbs(xs[k]));
                 ev["res"] = json!(if nan > 0 { format!("NaN x {}", nan) } else if multi > 2 { format!("{} of 2^24 first words make the call draw again", multi) } else { "Ok".to_string() });
